@@ -218,6 +218,8 @@ class Edges(object):
     def relate(self, edge, ref, A, B, fa, fb, rel, rel_sigma, case, cls, srcs):
         self.acc.transitions += 1
         self.acc.traces += 1
+        if self.acc.transitions % 150001 == 5:
+            self.acc.sample(dict(case, edge_kind=edge, calls=srcs))
         bad = rn.compare(ref, (A, B), rel=rel, rel_sigma=rel_sigma, fa=fa, fb=fb)
         if bad:
             what = "all" if len(bad) == len(rn.OUTPUTS) else "+".join(bad)
